@@ -13,7 +13,7 @@ package io
 //@ func ReadIntoGraph
 //@   opt terminates
 //@   requires g != nil && b != nil
-//@   modifies $added, $parsedOK
+//@   modifies $added, $parsedOK, $driverFailed
 //@   ensures[count-is-triples-added] result0 == $added - old($added)
 //@   ensures[every-parsed-line-is-added] result1 == nil ==> $added - old($added) == $parsedOK - old($parsedOK)
 //@   ensures[no-silent-truncation] result1 == nil ==> !$scanFailed
